@@ -107,6 +107,44 @@ def r1(ctx):
     # ids from run lengths
     h = find_all('group_data[:, 2] = [i for i in range(len(grp_param)) for j '
                  'in range(len(grp_param[i]))]', fi.node, 'stmt')
+    if not h:
+        # run-length form: ids += [g] * len(group) for g, group in order
+        st_ = [x for t, x in U.stores(fi.node)
+               if src(t) == 'group_data[:, 2]' and isinstance(x, ast.Assign)
+               and isinstance(x.value, ast.Name)]
+        if len(st_) == 1:
+            nm = st_[0].value.id
+            init = [a for a in U.assigns_of(fi.node, nm)
+                    if isinstance(a, ast.Assign) and src(a.value) == '[]']
+            accs = [a for a in U.assigns_of(fi.node, nm)
+                    if isinstance(a, ast.AugAssign)]
+            okf = len(init) == 1 and len(accs) == 1 and \
+                init[0].lineno < accs[0].lineno < st_[0].lineno
+            if okf:
+                lps = [l for l in U.enclosing_loops(accs[0])
+                       if isinstance(l, ast.For)]
+                okf = len(lps) == 1 and not U.guards(accs[0], stop=lps[0])
+            if okf:
+                lp_ = lps[0]
+                if match('range(len(grp_param))', lp_.iter) is not None \
+                        and isinstance(lp_.target, ast.Name):
+                    gi = lp_.target.id
+                    okf = src(accs[0].value) in (
+                        '[%s] * len(grp_param[%s])' % (gi, gi),
+                        'len(grp_param[%s]) * [%s]' % (gi, gi))
+                elif match('enumerate(grp_param)', lp_.iter) is not None \
+                        and isinstance(lp_.target, ast.Tuple) and \
+                        len(lp_.target.elts) == 2 and all(
+                            isinstance(e, ast.Name)
+                            for e in lp_.target.elts):
+                    gi, mem = (e.id for e in lp_.target.elts)
+                    okf = src(accs[0].value) in (
+                        '[%s] * len(%s)' % (gi, mem),
+                        'len(%s) * [%s]' % (mem, gi))
+                else:
+                    okf = False
+            if okf:
+                h = [(st_[0], {})]
     h2 = find_all('group_data[:, :2] = %s' % pname, fi.node, 'stmt')
     ctx.require(len(h) == 1 and len(h2) == 1, 'C20.R1', fi,
                 h[0][0] if h else fi.node, 'group ids must be generated from '
